@@ -210,6 +210,7 @@ def canon(res, mode):
     per = [[] for _ in mode.files]
     cur = 0
     own_ino = {}
+    pre_gone = set()     # inode numbers are reused: once the old target is unlinked (-f) its number means nothing
     for ln in res["log"]:
         r = parse_rec(ln)
         if r["op"] == "CRASH":
@@ -234,7 +235,7 @@ def canon(res, mode):
                 f = mode.files[cur]
                 if r["ino"] == res["inos"].get(f["src"]):
                     cls = "1"
-                elif f["dst"] and r["ino"] == res["inos"].get(f["dst"]):
+                elif f["dst"] and r["ino"] == res["inos"].get(f["dst"]) and cur not in pre_gone:
                     cls = "2"
                 elif r["ino"] == own_ino.get(cur):
                     cls = "3"
@@ -245,6 +246,8 @@ def canon(res, mode):
             s = "%s %s -> %s" % (op, role, rs)
             if op == "fstat" and role == "DST" and ok and mode.file_dest:
                 own_ino[cur] = r["ino"]
+            if op == "unlink" and role == "DST" and ok:
+                pre_gone.add(cur)
         per[cur].append({"k": r["k"], "s": s, "op": op, "role": role, "req": r["a1"], "ret": r["ret"], "errno": r["errno"],
                          "ino": r["ino"], "inj": r["inj"]})
     # resolve '?' inode classes: the target created by this run (when its fstat was faulted) or a foreign file
